@@ -198,9 +198,11 @@ func (p *Prog) verifyFunc(fn *ssa.Function, ct *Contract) (fx *Fx, err error) {
 	fx.Final = fin
 	fx.FinalRes = res
 	vars := map[string]Val{}
-	for k, v := range fx.frameVarsAt(fin, nil) {
+	fx.nvInclusive = true
+	for k, v := range fx.frameVarsAt(fin, fx.exitBlk) {
 		vars[k] = v // named local values as of function exit (for proof steps)
 	}
+	fx.nvInclusive = false
 	for k, v := range fx.entryVarsM {
 		vars[k] = v
 	}
@@ -220,6 +222,9 @@ func (p *Prog) verifyFunc(fn *ssa.Function, ct *Contract) (fx *Fx, err error) {
 	res.T = resT
 	fx.bindResults(vars, res, resT, fn, ct)
 	post := &Env{fx: fx, st: fin, old: fx.Entry, vars: vars}
+	fx.exitLenient = true
+	fx.undefNames = nil
+	defer func() { fx.exitLenient = false }()
 	// ghost state: the contract's ghost updates define the new abstract state; everything else must be
 	// unchanged for every object that existed on entry
 	{
@@ -308,11 +313,13 @@ func (p *Prog) verifyFunc(fn *ssa.Function, ct *Contract) (fx *Fx, err error) {
 		var pcs []*Term
 		for k, r := range rets {
 			fx.exitPos = r.Pos
+			fx.exitBlk = r.Blk
 			pcs = append(pcs, r.St.PC)
 			exitFor(r.St, r.Res, fmt.Sprintf("@ret%d", k+1))
 			fin = r.St
 		}
 		fx.exitPos = token.NoPos
+		fx.exitBlk = nil
 		// vacuity guard over all return paths together
 		fin = fin.Clone()
 		fin.PC = Or(pcs...)
